@@ -449,26 +449,92 @@ def seg_close(a: str, b: str, mode: str, tol: float) -> tuple[bool, bool]:
     return True, False
 
 
-def _is_tie(ctx: Ctx, inp: dict, i: int, msegs: list[str], sqrt_ans: float) -> bool:
-    """float stream only: the model's own answer up to segment i changes shape when every width (or height) of the
-    input moves by ±4 ulp — the decision (`h > w`, cuttable, overlap) sits on a rounding tie, outside the property."""
+def _nudged_inputs(inp: dict) -> list[dict]:
+    """the input with every width (resp. height) moved by ±4 ulp, the lower-left corner kept (so that a layout anchored
+    at x = 0 / y = 0 stays in the positive quadrant and abutting cells keep abutting on that side)."""
     from vcheck import ulp_nudge
-    reqs = []
+    out = []
     for fld in (2, 3):
         for k in (-4, 4):
-            v = dict(inp)
-            v["cells"] = [dict(c, v=[(ulp_nudge(x, k) if j == fld else x) for j, x in enumerate(c["v"])]) for c in inp["cells"]]
-            if any(c["v"][fld] <= 0 for c in v["cells"]):
-                continue
-            reqs.append(request(v, sqrt_ans))
+            cells = []
+            ok = True
+            for c in inp["cells"]:
+                v = list(c["v"])
+                lo = v[fld - 2] - v[fld] / 2
+                v[fld] = ulp_nudge(v[fld], k)
+                v[fld - 2] = lo + v[fld] / 2
+                if v[fld] <= 0 or v[fld - 2] - v[fld] / 2 < 0:
+                    ok = False
+                cells.append(dict(c, v=v))
+            if ok:
+                out.append(dict(inp, cells=cells))
+    return out
+
+
+def _is_tie(ctx: Ctx, inp: dict, i: int, segs: list[str], msegs: list[str], sqrt_ans: float) -> bool:
+    """float stream only.  The disagreement at segment i is a rounding tie (outside the property) ONLY IF the model
+    itself, run on an input whose sizes are moved by ±4 ulp and which the constructor still accepts, reproduces the
+    IMPLEMENTATION's segments 1..i (shape and values within 1e-6): then the decision (`h > w`, cuttable, overlap)
+    depends on the last bits of the input.  Variants the constructor rejects are discarded."""
+    reqs = [request(v, sqrt_ans) for v in _nudged_inputs(inp)]
     reps = ctx.model(reqs) or []
     for r in reps:
         rs = r.split(" ;; ")
-        for j in range(1, i + 1):
-            a, b = (rs[j] if j < len(rs) else "<missing>"), (msegs[j] if j < len(msegs) else "<missing>")
-            if not seg_close(a, b, "F", 1e-6)[0]:
-                return True
+        if not rs[0].startswith("ok"):
+            continue
+        if all(j < len(rs) and j < len(segs) and seg_close(rs[j], segs[j], "F", 1e-6)[0] for j in range(1, i + 1)):
+            return True
     return False
+
+
+def tie_filter_selftest(ctx: Ctx, sample: list) -> None:
+    """meta-test of the tie filter, run with every check (cheap).
+    (a) a synthetic disagreement on a layout anchored at the origin (the model's answer to a DIFFERENT operation is
+        presented as the implementation's) must not be classified as a tie;
+    (b) nudge sensitivity: for the float-stream inputs of this run, how often does a ±4 ulp variant change the shape of
+        the model's own answer?  Must be rare; recorded in the evidence."""
+    inp = {"mode": "F", "family": "dec", "eps": None, "text": True, "fixed": [], "expect_valid": True,
+           "cells": [{"kind": "V", "v": [0.15, 0.3, 0.3, 0.6], "region": None, "alloc": [["M1", 0.3]], "depth": 0},
+                     {"kind": "V", "v": [0.75, 0.3, 0.9, 0.6], "region": None, "alloc": [["M2", 0.7]], "depth": 0}],
+           "ops": [["R", 0.5, 1]]}
+    other = dict(inp, ops=[["R", 0.7, 2]])
+    reps = ctx.model([request(inp, 0.0), request(other, 0.0)])
+    if reps is None:
+        return
+    msegs, fake = reps[0].split(" ;; "), reps[1].split(" ;; ")
+    if len(_nudged_inputs(inp)) != 4:
+        raise RuntimeError("tie filter self-test: nudged variants of an anchored layout are being discarded")
+    if seg_close(msegs[1], fake[1], "F", 1e-9)[0] or _is_tie(ctx, inp, 1, fake, msegs, 0.0):
+        raise RuntimeError("tie filter self-test: a synthetic disagreement on an anchored layout is classified as a tie")
+    probe = [(i2, s2, sq) for (i2, s2, _, sq) in sample if i2["mode"] == "F" and s2 and s2[0].startswith("ok") and len(s2) > 1][:60]
+    reqs, owner = [], []
+    for k, (i2, s2, sq) in enumerate(probe):
+        reqs.append(request(i2, sq))
+        owner.append((k, True))
+        for v in _nudged_inputs(i2):
+            reqs.append(request(v, sq))
+            owner.append((k, False))
+    reps = ctx.model(reqs) or []
+    base: dict[int, list[str]] = {}
+    sensitive: set[int] = set()
+    usable = 0
+    for (k, is_base), r in zip(owner, reps):
+        rs = r.split(" ;; ")
+        if is_base:
+            base[k] = rs
+            continue
+        if not rs[0].startswith("ok"):
+            continue
+        usable += 1
+        b = base[k]
+        if len(rs) != len(b) or any(not seg_close(x, y, "F", 1e-6)[0] for x, y in zip(rs[1:], b[1:])):
+            sensitive.add(k)
+    ctx.count("tie-filter:probed-F-inputs", len(probe))
+    ctx.count("tie-filter:nudge-sensitive", len(sensitive))
+    ctx.extra["tie_filter"] = {"selftest": "synthetic disagreement not a tie", "probed": len(probe), "usable_variants": usable,
+                               "nudge_sensitive": len(sensitive), "ties_not_compared": ctx.ties}
+    if probe and (usable < 2 * len(probe) or len(sensitive) > max(3, len(probe) // 5)):
+        raise RuntimeError(f"tie filter self-test: {len(sensitive)} of {len(probe)} inputs nudge-sensitive, {usable} usable variants")
 
 
 def compare(ctx: Ctx, inp: dict, segs: list[str], reply: str, sqrt_ans: float = 0.0) -> None:
@@ -483,11 +549,88 @@ def compare(ctx: Ctx, inp: dict, segs: list[str], reply: str, sqrt_ans: float = 
                 ctx.drift += 1
             continue
         opname = "init" if i == 0 else (inp["ops"][i - 1][0] if i - 1 < len(inp["ops"]) else "?")
-        if mode == "F" and not s.startswith("err") and not m.startswith("err") and _is_tie(ctx, inp, i, msegs, sqrt_ans):
+        if mode == "F" and not s.startswith("err") and not m.startswith("err") and _is_tie(ctx, inp, i, segs, msegs, sqrt_ans):
             ctx.ties += 1
             return
         ctx.disagree(f"hist:{opname}@{i}", inp, s[:600], m[:600], size=len(inp["cells"]) + 4 * i)
         return
+
+
+# --------------------------------------------------------------------------------------------- the 1 % boundary
+def cuttable_boundary_stream(ctx: Ctx, n: int) -> None:
+    """direct clause on `Rectangle.x_cuttable / y_cuttable`: a cut whose smaller piece is EXACTLY `ratio * other side`
+    is refused, one ulp further inside it is accepted, one ulp nearer the side it is refused (`min(...) > ratio * side`,
+    strict).  The threshold is computed with the code's own float expression `ratio * shape.h`; the rectangle is
+    anchored so that `x - bb.ll.x` (resp. `bb.ur.x - x`) is exactly that number — cases where it is not are skipped."""
+    import math
+    rng = ctx.rng
+    for _ in range(n):
+        horiz = rng.random() < 0.5            # x_cuttable (other side = h) or y_cuttable (other side = w)
+        ratio = rng.choice([0.01, 0.01, 0.01, 0.25, 0.125, 0.5, 0.0, 0.3])
+        other = rng.choice([rng.randint(1, 800) / 8, rng.randint(1, 64) * 100 / 128, rng.uniform(0.5, 50), float(rng.randint(1, 100))])
+        thr = ratio * other
+        side = max(4 * thr, 1.0) * rng.choice([1.0, 2.0, 3.5])
+        lo = rng.choice([0.0, 0.0, 1.0, 0.5, 2.0])
+        upper = rng.random() < 0.5            # boundary measured from the upper side
+        if horiz:
+            r = Rectangle(center=Point(lo + side / 2, 3.0 + other / 2), shape=Shape(side, other))
+            bbl, bbu = r.bounding_box.ll.x, r.bounding_box.ur.x
+            f = r.x_cuttable
+        else:
+            r = Rectangle(center=Point(3.0 + other / 2, lo + side / 2), shape=Shape(other, side))
+            bbl, bbu = r.bounding_box.ll.y, r.bounding_box.ur.y
+            f = r.y_cuttable
+        code_thr = ratio * (r.shape.h if horiz else r.shape.w)
+        z = (bbu - thr) if upper else (bbl + thr)
+        dist = (bbu - z) if upper else (z - bbl)
+        if dist != code_thr or not (bbl < z < bbu):
+            ctx.count("boundary:skipped-inexact")
+            continue
+        inward = math.nextafter(z, -math.inf if upper else math.inf)
+        outward = math.nextafter(z, math.inf if upper else -math.inf)
+        d_in = (bbu - inward) if upper else (inward - bbl)
+        d_out = (bbu - outward) if upper else (outward - bbl)
+        inp = {"op": "cuttable-boundary", "axis": "x" if horiz else "y", "rect": [r.center.x, r.center.y, r.shape.w, r.shape.h],
+               "ratio": ratio, "z": z, "upper": upper}
+        try:
+            got = (f(z, ratio), f(inward, ratio) if d_in > code_thr else None, f(outward, ratio) if d_out < code_thr and bbl < outward < bbu else None)
+        except Exception as e:
+            ctx.spec_fail("operation-raised", inp, {"raised": err(e)}, 1)
+            continue
+        ctx.case("boundary", (horiz, ratio, other, side, lo, upper), nontrivial=True)
+        ctx.count("boundary:ratio=" + str(ratio))
+        if got[0] is not False:
+            ctx.spec_fail("cuttable_boundary:exactly-ratio-is-refused", inp, {"cuttable_at_boundary": got[0]}, 1)
+        elif got[1] is False:
+            ctx.spec_fail("cuttable_boundary:one-ulp-inside-is-accepted", inp, {"z_inward": inward}, 1)
+        elif got[2] is True:
+            ctx.spec_fail("cuttable_boundary:one-ulp-outside-is-refused", inp, {"z_outward": outward}, 1)
+
+
+def replay_boundary(ctx: Ctx, inp: dict) -> None:
+    cx, cy, w, h = inp["rect"]
+    r = Rectangle(center=Point(cx, cy), shape=Shape(w, h))
+    f = r.x_cuttable if inp["axis"] == "x" else r.y_cuttable
+    if f(inp["z"], inp["ratio"]) is not False:
+        ctx.spec_fail("cuttable_boundary:exactly-ratio-is-refused", inp, {"cuttable_at_boundary": True}, 1)
+
+
+def gen_boundary_input(rng) -> dict:
+    """Q-stream layout on which `griddify` meets the 1 % boundary exactly: a cell of height H = 100·d (d = k/128, so that
+    the double product 0.01·H is exactly d) whose upper neighbours put a side line at distance d from its left (or right)
+    side; the roles of x and y are swapped half of the time."""
+    d = rng.choice([1, 2, 4, 8]) / 128
+    H = 100 * d
+    W = d * rng.choice([4, 16, 64])
+    right = rng.random() < 0.5
+    cut = (W - d) if right else d
+    boxes = [(0.0, 0.0, W, H), (0.0, H, cut, H + 1.0), (cut, H, W, H + 1.0)]
+    if rng.random() < 0.5:
+        boxes = [(y0, x0, y1, x1) for (x0, y0, x1, y1) in boxes]
+    cells = [{"kind": "V", "v": [(x0 + x1) / 2, (y0 + y1) / 2, x1 - x0, y1 - y0], "region": None,
+              "alloc": [["M1", rng.choice(Q_RATIOS[1:])]], "depth": 0} for (x0, y0, x1, y1) in boxes]
+    return {"expect_valid": True, "mode": "Q", "family": "boundary", "eps": None, "text": True, "cells": cells, "fixed": [],
+            "ops": [["G"], ["M", 0.5]]}
 
 
 # --------------------------------------------------------------------------------------------- sum() of floats
@@ -881,6 +1024,7 @@ def spec_aligned(ctx: Ctx, inp: dict, idx: int, op, olds, news, size: int) -> No
     xs = sorted({v for c in news for v in (cbb(c)[0], cbb(c)[2])})
     ys = sorted({v for c in news for v in (cbb(c)[1], cbb(c)[3])})
     rho = Fraction(0.01) if mode == "Q" else RHO
+    tagged = 0
     for c in news:
         if c["fixed"]:
             continue
@@ -893,7 +1037,11 @@ def spec_aligned(ctx: Ctx, inp: dict, idx: int, op, olds, news, size: int) -> No
                 ctx.spec_fail("griddify_aligned:x", inp,
                               {"step": idx, "op": op, "cell": small(c), "line_x": float(x), "parent_h": float(ph)}, size,
                               finding="C12-griddify-x-before-y" if sliver_for_parent else None)
-                return
+                if not sliver_for_parent:
+                    return
+                tagged += 1
+                if tagged >= 8:       # the registered finding: keep inspecting the other lines and cells (bounded)
+                    break
         for y in ys:
             if y0 + t < y < y1 - t and min(y - y0, y1 - y) > rho * c["w"] * (1 + margin) + t:
                 ctx.spec_fail("griddify_aligned:y", inp, {"step": idx, "op": op, "cell": small(c), "line_y": float(y)}, size)
